@@ -12,9 +12,19 @@ from .sym import VStr, VBuiltin, VClass, VFunc
 REPO = os.environ.get('VERIF_REPO', '/repo')
 
 
+BASELINE = os.path.join(os.path.dirname(os.path.dirname(os.path.abspath(__file__))), 'baseline')
+
+
 class RepoIndex:
-    def __init__(self, files, repo=None):
+    def __init__(self, files, repo=None, with_baseline=True):
         self.repo = repo or REPO
+        self.baseline = None
+        self._local_maps = {}
+        if with_baseline and os.path.isdir(BASELINE):
+            try:
+                self.baseline = RepoIndex([f for f in files if os.path.exists(os.path.join(BASELINE, f))], BASELINE, with_baseline=False)
+            except Exception:
+                self.baseline = None
         self.files = {}
         self.classes = {}       # name -> (file, ClassDef)
         self.functions = {}     # qualname -> (file, FunctionDef)
@@ -49,6 +59,31 @@ class RepoIndex:
                         self.module_assigns.setdefault(t.id, (rel, n.value))
 
     # ------------------------------------------------------------
+    def local_map(self, qual, node=None):
+        """baseline local name -> current local name for the function `qual` (see pyvc/localmap.py); {} when nothing moved"""
+        from . import localmap
+        q = qual
+        for suffix in ('.<spec>', '.<old>'):
+            if q.endswith(suffix):
+                q = q[:-len(suffix)]
+        if q in self._local_maps:
+            return self._local_maps[q]
+        m = {}
+        try:
+            if self.baseline is not None:
+                if '.<locals>.' in q:
+                    outer, inner = q.split('.<locals>.', 1)
+                    cur = locate_nested(self.functions[outer][1], inner)
+                    base = locate_nested(self.baseline.functions[outer][1], inner)
+                else:
+                    cur = self.functions[q][1]
+                    base = self.baseline.functions[q][1]
+                m = localmap.local_mapping(base, cur)
+        except (KeyError, SyntaxError):
+            m = {}
+        self._local_maps[q] = m
+        return m
+
     def function(self, qual):
         if qual not in self.functions:
             raise KeyError('locator does not resolve: %s' % qual)
